@@ -253,7 +253,7 @@ func (g *pg) of(t sch.RType, d int) *ir.Expr {
 		// attribute access on the least upper bound of two entity types: (if c then e1 else e2).a where both types
 		// declare a required attribute a of type t (permissive mode types the `if` as the union of the two types)
 		type cand struct{ e1, e2, attr string }
-		var cs []cand
+		var cs, slipCs []cand
 		for _, x := range g.rs.Entities {
 			for _, ax := range x.Attrs {
 				if ax.Opt || !sch.REqual(ax.T, t) {
@@ -261,12 +261,23 @@ func (g *pg) of(t sch.RType, d int) *ir.Expr {
 				}
 				for _, y := range g.rs.Entities {
 					for _, ay := range y.Attrs {
-						if ay.Name == ax.Name && !ay.Opt && (sch.REqual(ay.T, t) || g.slip("lub-attribute-type-differs")) {
+						if ay.Name != ax.Name {
+							continue
+						}
+						if ay.Opt && sch.REqual(ay.T, t) && x.Name != y.Name && g.slip("lub-attribute-optional-on-one-side") {
+							// required on one member of the union, optional on the other, read without a guard
+							slipCs = append(slipCs, cand{x.Name, y.Name, ax.Name})
+							continue
+						}
+						if !ay.Opt && (sch.REqual(ay.T, t) || g.slip("lub-attribute-type-differs")) {
 							cs = append(cs, cand{x.Name, y.Name, ax.Name})
 						}
 					}
 				}
 			}
+		}
+		if len(slipCs) > 0 {
+			cs = slipCs
 		}
 		if len(cs) > 0 {
 			c := gen.Pick(rt, cs, "lubcand")
@@ -509,6 +520,23 @@ func (g *pg) guarded(d int) *ir.Expr {
 			return ir.Bin(ir.OpAnd, ir.Bin(ir.OpOr, conj(gs), other), body)
 		}
 		return ir.Bin(ir.OpAnd, ir.Bin(ir.OpOr, other, conj(gs)), body)
+	case g.slip("guard-in-dead-branch"):
+		// the guard sits in a part of the expression that can never be the reason the whole is true: a disjunct that is
+		// statically false, the untaken branch of an `if` with a constant condition
+		other := g.boolLeaf()
+		dead := ir.Bin(ir.OpAnd, conj(gs), ir.Lit(ir.Bool(false)))
+		switch rapid.IntRange(0, 4).Draw(rt, "deadform") {
+		case 0:
+			return ir.Bin(ir.OpAnd, ir.Bin(ir.OpOr, other, dead), body)
+		case 1:
+			return ir.Bin(ir.OpAnd, ir.Bin(ir.OpOr, dead, other), body)
+		case 2:
+			return ir.Bin(ir.OpAnd, ir.If(ir.Lit(ir.Bool(false)), conj(gs), other), body)
+		case 3:
+			return ir.Bin(ir.OpAnd, ir.If(ir.Lit(ir.Bool(true)), other, conj(gs)), body)
+		default:
+			return ir.Bin(ir.OpAnd, ir.Bin(ir.OpOr, other, ir.Bin(ir.OpAnd, ir.Lit(ir.Bool(false)), conj(gs))), body)
+		}
 	case g.slip("guard-in-previous-when"):
 		g.prevWhen = append(g.prevWhen, conj(gs))
 		return body
